@@ -104,6 +104,37 @@ def execute(case):
         signal.alarm(0)
 
 
+def strip(ev):
+    return [{k: v for k, v in e.items() if k not in ('sys', 'final', 'kind')} for e in ev]
+
+
+def nontrivial(ev):
+    """the trace shows a death being observed, a descriptor being released, or an environment action"""
+    prev = None
+    for e in ev:
+        if e['e'] == 'env' and e['a'] != 'reuse':
+            return True
+        if e['e'] == 'op':
+            cur = (e['term'], e['closed'], e['proc'], e['fd'], e['eof'])
+            if prev is not None and cur != prev:
+                return True
+            prev = cur
+    return False
+
+
+def execute_json(case):
+    """execute() with a compact result: ('ok', JSON text of the stripped events, non-trivial?, number
+    of logged operations) | ('error', text) - the corpus of the thorough tier does not fit in memory
+    as Python objects"""
+    import json
+    o = execute(case)
+    if 'error' in o:
+        return ('error', o['error'])
+    ev = strip(o['ev'])
+    return ('ok', json.dumps(ev, sort_keys=True, separators=(',', ':')), nontrivial(ev),
+            sum(1 for e in ev if e['e'] == 'op'))
+
+
 # ---- run(..., withexitstatus=True): the operations run() performs, observed from inside ----------
 def execute_run(case):
     """pexpect.run('/bin/sh -c "exit N"' | 'kill -S $$', withexitstatus=True) with pexpect.run.spawn
@@ -204,8 +235,7 @@ def execute_run(case):
         import gc
         gc.collect()
         w.release()
-        w.events.append({'e': 'end', 'dfds': L.nfds() - w.base_fds, 'zomb': L.zombie_children() - w.base_zombies,
-                         'proc': L.proc_state(w.pid, os.getpid())})
+        w.events.append(w.leak_facts())
         signal.alarm(0)
         return {'ev': w.events}
     except BaseException:
